@@ -28,6 +28,8 @@ CONFIGS = {
     ('n=4 min2 max3 hi2.0 traffic+time+failures', cfg(4, 2, 3, 2.0, ops=TRAFFIC + ['Down', 'Up'], advs=[1, 3], max_out=5, max_down=1), 7),
     ('n=4 min2 max3 hi2.0 a member\'s channel closes and the member leaves', cfg(4, 2, 3, 2.0, ops=TRAFFIC + ['Down', 'Leave'], advs=[1], max_out=3,
                                                                                  max_down=1, max_notifications=1), 6),
+    ('n=4 stock settings (min 1, no max, band 0.5..2.0), built after another balancer was given its own settings',
+     dict(cfg(4, 1, 2 ** 31, 2.0, ops=TRAFFIC, advs=[2, 3], max_out=5), stock_after_prior=True, jitter_min=120, jitter_max=240), 6),
     ('n=3 min1 max2 hi1.0 requests 0.4 ms apart', cfg(3, 1, 2, 1.0, ops=TRAFFIC, advs=[4, 2], max_out=4), 7),
     ('n=3 min1 max3 hi1.0 the wall clock steps back 10 s once', cfg(3, 1, 3, 1.0, ops=TRAFFIC + ['Back'], advs=[2, 3], max_out=4), 7),
     ('n=3 min1 max2 hi1.0 next to a second balancer with a pending open', cfg(3, 1, 2, 1.0, ops=TRAFFIC, advs=[2, 3], max_out=3,
